@@ -99,7 +99,7 @@ let () = iter_lines (fun line ->
   | ["wfm"; d] ->
       let m = mod_of_desc d in
       let good v = (match sf (pf v) with Some (v', []) -> v' = v | _ -> false) in
-      let names = ["str_len"; "str_bytes"; "distinct"; "fn_fields"; "fn_names"; "layout";
+      let names = ["str_bytes"; "distinct"; "fn_fields"; "fn_names"; "layout";
                    "code_bytes"; "code_decodes"; "code_patches"; "code_f64"; "entry"] in
       let cs = wf_conjuncts_fast table_list good m in   (* = wf_conjuncts, theorem C11_wf_fast_is_wf *)
       let bad = List.filter_map (fun (nm, ok) -> if ok then None else Some nm) (List.combine names cs) in
